@@ -44,7 +44,26 @@ type Steer struct {
 	Gate             int      `json:"gate,omitempty"`
 }
 
+// closeBound bounds the wait for AsyncClose; closeLimit is the bound in force: after the first run that did not
+// close (never on a correct tree) the following runs wait 2 s only, after the fifth 400 ms, so that a broken
+// tree costs a minute, not an hour (a hang is C01's business; the partition logs are complete by then).
+var closeLimit = closeBound
+var hangs int
+
+func hung() {
+	hangs++
+	closeLimit = 2 * time.Second
+	if hangs >= 5 {
+		closeLimit = 400 * time.Millisecond
+	}
+}
+
+// LastInputBlocked reports whether a send on Input() of the latest Run did not complete within inputBound (the
+// pipeline stopped accepting messages; never on a correct tree). Runs are sequential within a process.
+var LastInputBlocked bool
+
 const (
+	inputBound = 3 * time.Second
 	closeBound = 20 * time.Second
 	holdBound  = 300 * time.Millisecond
 	gateBound  = 60 * time.Millisecond
@@ -192,6 +211,20 @@ func Run(sc *cluster.Scenario, st []Steer) *cluster.Result {
 		}
 	}
 	mine := map[*sarama.ProducerMessage]bool{}
+	LastInputBlocked = false
+	var blocked bool // written by the submitting goroutine only, read after it finished
+	submit := func(wave []*sarama.ProducerMessage) {
+		for _, m := range wave {
+			if blocked {
+				return
+			}
+			select {
+			case prod.Input() <- m:
+			case <-time.After(inputBound):
+				blocked = true
+			}
+		}
+	}
 	for w := 0; w <= maxWave; w++ {
 		gated := false
 		if w > 0 {
@@ -227,9 +260,7 @@ func Run(sc *cluster.Scenario, st []Steer) *cluster.Result {
 			// holds waiting for this wave once it is in (or stuck), then wait for the submission to complete
 			sub := make(chan struct{})
 			go func() {
-				for _, m := range wave {
-					prod.Input() <- m
-				}
+				submit(wave)
 				close(sub)
 			}()
 			if len(after) > 0 {
@@ -243,10 +274,12 @@ func Run(sc *cluster.Scenario, st []Steer) *cluster.Result {
 			}
 			<-sub
 		} else {
-			for _, m := range wave {
-				prod.Input() <- m
-			}
+			submit(wave)
 		}
+	}
+	if blocked {
+		LastInputBlocked = true
+		hung()
 	}
 	for i, s := range st {
 		if s.ReleaseOn == nil {
@@ -261,7 +294,7 @@ func Run(sc *cluster.Scenario, st []Steer) *cluster.Result {
 		<-closedE
 		close(done)
 	}()
-	deadline := time.Now().Add(closeBound)
+	deadline := time.Now().Add(closeLimit)
 wait:
 	for {
 		select {
@@ -282,6 +315,8 @@ wait:
 	}
 	if res.CloseOK {
 		_ = client.Close()
+	} else {
+		hung()
 	}
 	omu.Lock()
 	res.Outcomes = append(append([]cluster.Outcome(nil), succ...), errs...)
